@@ -297,20 +297,35 @@ fn position_in_range(start: (u32, u32), end: (u32, u32), target: LineChar) -> bo
     true
 }
 
+/// The byte offset in source of the given position, whose line is relative to the
+/// start of source and whose character counts UTF-16 code units.
 fn get_index_of_line_char(source: &str, line_char: LineChar) -> u32 {
+    let mut line_start = 0;
     let mut remaining_line_breaks = line_char.line;
-    for (index, char) in source.chars().enumerate() {
-        if char == '\n' {
-            remaining_line_breaks -= 1;
+    if remaining_line_breaks > 0 {
+        for (index, char) in source.char_indices() {
+            if char == '\n' {
+                remaining_line_breaks -= 1;
+                if remaining_line_breaks == 0 {
+                    line_start = index + 1;
+                    break;
+                }
+            }
         }
-
-        if remaining_line_breaks == 0 {
-            // Why were we off by one to begin with? This is a bad fix!
-            return index as u32 + line_char.character + 1;
+        if remaining_line_breaks > 0 {
+            // Should we panic?
+            return source.len() as u32;
         }
     }
 
-    // Should we panic?
+    let mut utf16_units = 0;
+    for (index, char) in source[line_start..].char_indices() {
+        if utf16_units >= line_char.character || char == '\n' {
+            return (line_start + index) as u32;
+        }
+        utf16_units += char.len_utf16() as u32;
+    }
+
     source.len() as u32
 }
 
